@@ -68,7 +68,9 @@ def quarter(v):
 def polyline_cases(draw, degenerate=False):
     nseg = draw(st.integers(1, 8))
     dim = draw(st.sampled_from([2, 2, 3]))
-    a, b = draw(gen.intervals())
+    qkind = draw(st.sampled_from(["grid", "grid", "on-curve", "vertex", "equidistant", "near-vertex", "near-vertex",
+                                  "foot-at-zero"]))
+    a, b = draw(gen.intervals(zero_inside=True if qkind == "foot-at-zero" else None))
     grid = draw(st.sampled_from([8, 10, 12, 16, 30]))
     k = min(nseg - 1, grid - 1)
     js = sorted(draw(st.lists(st.integers(1, grid - 1), min_size=k, max_size=k, unique=True)))
@@ -86,7 +88,6 @@ def polyline_cases(draw, degenerate=False):
     if degenerate and n >= 2:
         i = draw(st.integers(1, n - 1))
         P[i] = list(P[i - 1])
-    qkind = draw(st.sampled_from(["grid", "grid", "on-curve", "vertex", "equidistant", "near-vertex", "near-vertex"]))
     q = draw(st.lists(st.integers(-12, 12).map(lambda v: F(v, 2)), min_size=dim, max_size=dim))
     scale = draw(st.sampled_from([F(1), F(1), F(1), F(10 ** 5), F(1, 10 ** 4), F(1000)]))
     U = [u * scale for u in U]
@@ -169,6 +170,14 @@ def check_polyline(case, out):
         base = [a + s * (b - a) for a, b in zip(A, B)]
         base[0] += case["off"]
         q = tuple(oracle.frac(float(x)) for x in base)
+    elif qkind == "foot-at-zero" and any(lo < 0 < hi for lo, hi, _, _ in segs):
+        # the point of the curve whose parameter is exactly 0 (strictly inside a span), moved along the normal
+        lo, hi, A, B = [sg for sg in segs if sg[0] < 0 < sg[1]][0]
+        s = (0 - lo) / (hi - lo)
+        d = [b - a for a, b in zip(A, B)]
+        nrm = [-d[1], d[0]] + [F(0)] * (dim - 2)
+        h = F(case["t0"] % 3, 2)  # 0: on the curve, else off it
+        q = tuple(a + s * dd + h * n for a, dd, n in zip(A, d, nrm))
     elif qkind == "equidistant" and len(segs) >= 2:
         # midpoint between the midpoints of two segments (often equidistant or near it)
         i = case["vi"] % (len(segs) - 1)
